@@ -108,6 +108,10 @@ func (r *ReferenceRecord) IsInRange() bool {
 }
 
 type FieldIndexCache struct {
+	// A cache belongs to a record of an outer query and is reached from the scopes of all the
+	// goroutines that evaluate an inner (correlated) query against that record.
+	mtx sync.RWMutex
+
 	limitToUseSlice int
 	m               map[parser.QueryExpression]int
 	exprs           []parser.QueryExpression
@@ -124,6 +128,9 @@ func NewFieldIndexCache(initCap int, limitToUseSlice int) *FieldIndexCache {
 }
 
 func (c *FieldIndexCache) Get(expr parser.QueryExpression) (int, bool) {
+	c.mtx.RLock()
+	defer c.mtx.RUnlock()
+
 	if c.m != nil {
 		idx, ok := c.m[expr]
 		return idx, ok
@@ -138,6 +145,9 @@ func (c *FieldIndexCache) Get(expr parser.QueryExpression) (int, bool) {
 }
 
 func (c *FieldIndexCache) Add(expr parser.QueryExpression, idx int) {
+	c.mtx.Lock()
+	defer c.mtx.Unlock()
+
 	if c.m == nil && c.limitToUseSlice <= len(c.exprs) {
 		c.m = make(map[parser.QueryExpression]int, c.limitToUseSlice*2)
 		for i := range c.exprs {
